@@ -196,16 +196,20 @@ func (wb *workerBinder[T]) WithPersistentPriorityQueue(pq IPersistentPriorityQue
 }
 
 func (wb *workerBinder[T]) WithDistributedQueue(dq IDistributedQueue) DistributedQueue[T] {
-	defer dq.Subscribe(wb.handleQueueSubscription)
+	// In this order: the queue is counted, its notifications are listened to, and only then does
+	// start() wake the event loop - so an item placed on the adapter at any moment is either
+	// announced to this worker or already there when that wake-up is acted upon.
 	defer wb.start()
+	defer dq.Subscribe(wb.handleQueueSubscription)
 	defer wb.queues.Register(dq)
 
 	return NewDistributedQueue[T](dq)
 }
 
 func (wb *workerBinder[T]) WithDistributedPriorityQueue(dpq IDistributedPriorityQueue) DistributedPriorityQueue[T] {
-	defer dpq.Subscribe(wb.handleQueueSubscription)
+	// see WithDistributedQueue for the order
 	defer wb.start()
+	defer dpq.Subscribe(wb.handleQueueSubscription)
 	defer wb.queues.Register(dpq)
 
 	return NewDistributedPriorityQueue[T](dpq)
